@@ -598,6 +598,13 @@ class World:
         c = self.cfg
         sc = c["server"]
         k = self.k
+        if c.get("stub_sleep"):
+            # hours of virtual time: replace the repository's 0.5 ms busy-sleep helper (200 time.sleep calls per
+            # 0.1 s tick) by one virtual sleep with the same contract (returns within eps2 before the deadline).
+            # Only used by the long idle runs; reported as a stub in their evidence.
+            ft = self.seams.ftime
+            self.seams._set(server_mod, "sleep", lambda d, eps1=0.001, eps2=0.0005: ft.sleep(d - eps2 / 2) if d >= eps1 else None)
+            self.probe("server_sleep_helper_stubbed")
         self.snode = k.node("S", offset=sc.get("offset", 1.7e9), rate=sc.get("rate", 1.0), mono0=1000.0)
         self.seams.reactor_node = self.snode
         self.handler = SimHandler(self)
